@@ -264,18 +264,16 @@ Section EnumImpl.
     (forall b, from_bool E b = Err (unexpected_type "bool"))
     /\ (forall ch, from_char E ch = Err (unexpected_type "char"))
     /\ (forall i l, (forall s, l <> LStr s) -> is_err (from_value E i l) = true)
-    /\ (forall e, (forall j s, strip_groups e <> ELit j (LStr s)) -> (forall j s, strip_groups e <> ENeg j (LStr s)) ->
-          is_err (from_expr E e) = true).
+    /\ (forall e, (forall j s, strip_groups e <> ELit j (LStr s)) -> is_err (from_expr E e) = true).
   Proof.
     repeat split.
     - intros i l Hs. unfold from_value. cbn [o_value impl_of]. destruct l; try reflexivity. exfalso. eapply Hs. reflexivity.
-    - intros e He He'. unfold from_expr. cbn [o_expr impl_of]. rewrite default_from_expr_strip.
+    - intros e He. unfold from_expr. cbn [o_expr impl_of]. rewrite default_from_expr_strip.
       pose proof (strip_groups_not_group e) as G.
       destruct (strip_groups e) as [j l|j g|j p|j es|j k|j nl] eqn:S; try reflexivity.
       + cbn [default_from_expr]. unfold from_value. cbn [o_value impl_of].
         destruct l; try reflexivity. exfalso. eapply He. reflexivity.
       + exfalso. eapply G. reflexivity.
-      + cbn [default_from_expr]. unfold from_value. cbn [o_value impl_of].
-        destruct nl; try reflexivity. exfalso. eapply He'. reflexivity.
+      + cbn [default_from_expr]. unfold from_value. cbn [o_value impl_of]. destruct nl; reflexivity.
   Qed.
 End EnumImpl.
